@@ -1,13 +1,123 @@
-"""C14 - see checks/blockcmp.py (shared block-compressor driver)."""
-from checks import blockcmp
+"""C14 - compression is deterministic: output depends only on input and settings.
+
+Block level: checks/blockcmp.py (BlockAPI memo over TLC-generated API histories, pooled compressors from 4 goroutines).
+Frame level (below): for each (input, options) the Writer is run with every concurrency level, under seeded schedule
+perturbation with poisoned pools (hooks of C08), and with the input split into Write calls in many ways - the
+partitions TLC enumerates in MC_Writer (Write-only histories) and B+-1 / single-byte / seeded ones; all members of a
+group must emit byte-identical frames (BlockAPI_Trace event `frame`: memo consistency on the key (input, options)).
+"""
+import json
+import os
+import random
+
+import vlib
+from checks import blockcmp, framelib as fl
+
+
+def partitions_from_tlc(cases):
+    out = set()
+    for h in cases:
+        ops = [(c["op"], c["n"]) for c in h["calls"]]
+        if all(o == "write" for o, _ in ops):
+            out.add(tuple(n for _, n in ops))
+    return sorted(out)
 
 
 def run(ctx):
     blockcmp.run(ctx, "C14")
+    q = ctx.tier == "quick"
+    b = vlib.build_harness()
+    d = vlib.scratch("c14f")
+    rnd = random.Random(ctx.seed * 71 + 14)
+    m = ctx.mc("MC_Writer", cfg="MC_Writer_gen", want_cases=True, timeout=900)
+    parts = partitions_from_tlc(m.cases)
+    B = 65536
+    groups = []
+    for gi in range(12 if q else 150):
+        o = {"code": 4, "bcs": gi % 2 == 0, "ccs": gi % 3 != 0, "level": [0, 0, 1, 9, 3][gi % 5], "legacy": False, "handler": gi % 4 == 0}
+        part = parts[(gi * 7 + ctx.seed) % len(parts)]
+        sizes = [(n // 4) * B + fl.g(n % 4, B) for n in part]
+        total = sum(sizes) or rnd.choice([1, 100, B + 1])
+        if not sum(sizes):
+            sizes = [total]
+        inp = {"family": rnd.choice(["text", "blockmix", "mixed", "random"]), "len": total, "seed": gi, "p1": B}
+        if o["level"] > 2 and inp["family"] == "mixed":
+            inp["family"] = "text"
+        members = [([total], 1, 0)]                                   # canonical: one Write, sequential
+        for conc in (1, 2, 4, 16):
+            members.append(([total], conc, 40))
+            members.append((sizes, conc, rnd.choice([0, 10, 80])))
+        pieces, left = [], total
+        while left > 0:                                               # B +- 1 pieces
+            n = min(left, rnd.choice([B - 1, B + 1, 1, B // 2, 3 * B]))
+            pieces.append(n)
+            left -= n
+        members.append((pieces, 1, 0))
+        members.append((pieces, 4, 40))
+        if total <= 3000:
+            members.append(([1] * total, 1, 0))
+            members.append(([1] * total, 2, 10))
+        groups.append((gi, o, inp, members))
+    cases = []
+    for gi, o, inp, members in groups:
+        for sizes, conc, perturb in members:
+            cases.append({"id": len(cases) + 1, "kind": "writer", "input": inp, "opts": dict(o, conc=conc),
+                          "calls": [{"op": "write", "n": n} for n in sizes] + [{"op": "close"}], "seed": ctx.seed * 100 + len(cases),
+                          "perturb": perturb, "poison": True, "group": gi})
+    recs, faults = fl.shard_run(b, "pipe-run", cases, d, "det", extra=("--watchdog", "120s"))
+    if faults:
+        raise vlib.MachineryFault("pipe-run failed: %s" % faults[0]["stderr"][-800:])
+    ctx.evaluations += len(recs)
+    ctx.distinct += len(cases)
+    tp = os.path.join(d, "frames.ndjson")
+    by_id = {c["id"]: c for c in cases}
+    with open(tp, "w") as f:
+        cur = None
+        for c in cases:
+            r = recs[c["id"]]
+            if c["group"] != cur:
+                cur = c["group"]
+                f.write(json.dumps({"ev": "newcase", "case": "g%d" % cur}) + "\n")
+            f.write(json.dumps({"ev": "frame", "case": "g%d" % cur, "id": c["id"], "key": "g%d" % cur, "outid": r["sinkSha"],
+                                "ok": r["status"] == "ok" and r["same"] and not r["hung"]}, separators=(",", ":")) + "\n")
+    ctx.sample({"frame_group_member": {k: v for k, v in cases[5].items() if k != "input"}, "sinkSha": recs[cases[5]["id"]]["sinkSha"]})
+    acc, rej = vlib.validate_trace(ctx, "BlockAPI_Trace", tp, cfg="BlockAPI_Trace_C14", timeout=1800, max_reject=5)
+    ctx.extra["frame_groups"] = len(groups)
+    for rj in rej:
+        rec = json.loads(rj["line"])
+        c = by_id[rec["id"]]
+        canon = next(x for x in cases if x["group"] == c["group"])
+        key = "C14:frame:conc=%s:%s:perturb=%s:ok=%s" % ("1" if c["opts"]["conc"] == 1 else ">1",
+                                                        "one-write" if len(c["calls"]) == 2 else "partitioned", "yes" if c["perturb"] else "no", rec["ok"])
+        if any(v[0] == key for v in ctx.violations):
+            continue
+        differs = False
+        for attempt in range(10 if c["opts"]["conc"] != 1 else 1):
+            rr, _ = fl.shard_run(b, "pipe-run", [canon, c], d, "again", nshards=1, extra=("--watchdog", "120s"))
+            if rr[canon["id"]]["sinkSha"] != rr[c["id"]]["sinkSha"] or rr[c["id"]]["status"] != "ok":
+                differs = True
+                break
+        if not differs:
+            ctx.unreproducible("%s: %s" % (key, rj["line"][:200]))
+            continue
+        ctx.violation(key, "the same input and options gave different frames: %s" % key,
+                      {"kind": "c14-frame", "canonical": canon, "member": c,
+                       "observed": {"canonical": rr[canon["id"]]["sinkSha"], "member": rr[c["id"]]["sinkSha"], "status": rr[c["id"]]["status"]}})
 
 
 def replay(ctx, path):
-    return blockcmp.replay(ctx, "C14", path)
+    rp = json.load(open(path))
+    if rp["kind"] != "c14-frame":
+        return blockcmp.replay(ctx, "C14", path)
+    b = vlib.build_harness()
+    d = vlib.scratch("c14r")
+    for attempt in range(10):
+        rr, _ = fl.shard_run(b, "pipe-run", [rp["canonical"], rp["member"]], d, "again", nshards=1, extra=("--watchdog", "120s"))
+        if rr[rp["canonical"]["id"]]["sinkSha"] != rr[rp["member"]["id"]]["sinkSha"]:
+            print("VIOLATION property=C14 replay=%s" % path)
+            return 1
+    print("replay: deviation not observed")
+    return 0
 
 
 def selftest(ctx):
